@@ -30,7 +30,8 @@ META = {
         "IP identities only against iPAddress SANs",
         "validity windows are at least 30 days away from the present, so no verdict depends on the clock",
         "a chain through an intermediate counts as leading to a trusted CA only if the server sends the intermediate, and only if the intermediate is a CA certificate",
-        "'default' trust configuration = neither option set (certifi bundle): none of the test CAs is trusted",
+        "'default' trust configuration = neither option set: mitmproxy then uses certifi.where(); the harness points certifi.where() at a bundle holding a third test root C, so the "
+        "default bundle is observable: root C is trusted exactly when no CA file and no CA directory is configured, roots A and B never by default",
         "DTLS (named in DESIGN.md for the thorough tier) is not covered: stdlib ssl has no DTLS and no independent DTLS peer is available",
     ],
 }
@@ -57,6 +58,7 @@ KINDS = {
     "not-yet-valid": ("leaf.test", ALLNAMES, "rootA", (30, 60), []),
     "self-signed": ("leaf.test", ALLNAMES, None, (-30, 365), []),
     "other-ca": ("leaf.test", ALLNAMES, "rootB", (-30, 365), []),
+    "default-bundle-ca": ("leaf.test", ALLNAMES, "rootC", (-30, 365), []),
     "inter-sent": ("leaf.test", ALLNAMES, "interA", (-30, 365), ["interA"]),
     "inter-missing": ("leaf.test", ALLNAMES, "interA", (-30, 365), []),
     "inter-not-ca": ("leaf.test", ALLNAMES, "interNotCa", (-30, 365), ["interNotCa"]),
@@ -70,11 +72,11 @@ THOROUGH_KINDS = {
     "expired-other-ca": ("leaf.test", ["dns:other.example.org"], "rootB", (-60, -30), []),
 }
 # which root a chain ends in, and what else is wrong with the path
-ROOT_OF = {"rootA": "A", "rootB": "B", "interA": "A", "interNotCa": "A", "interExpired": "A", None: None}
+ROOT_OF = {"rootA": "A", "rootB": "B", "rootC": "C", "interA": "A", "interNotCa": "A", "interExpired": "A", None: None}
 
 # trust configuration -> (set of trusted roots, options)
 TRUSTS = ["file:A", "dir:A", "file:B", "file:A+dir:B", "file:AB", "default"]
-TRUSTED = {"file:A": {"A"}, "dir:A": {"A"}, "file:B": {"B"}, "file:A+dir:B": {"A", "B"}, "file:AB": {"A", "B"}, "default": set()}
+TRUSTED = {"file:A": {"A"}, "dir:A": {"A"}, "file:B": {"B"}, "file:A+dir:B": {"A", "B"}, "file:AB": {"A", "B"}, "default": {"C"}}
 
 # identity -> (kind of identity, canonical form used by the reference)
 IDENTITIES = {
@@ -181,11 +183,12 @@ def setup():
     cas = {
         "rootA": tp.mint(cn="vmc C15 root A", key_name="rootA", ca=True),
         "rootB": tp.mint(cn="vmc C15 root B", key_name="rootB", ca=True),
+        "rootC": tp.mint(cn="vmc C15 root C (default bundle)", key_name="rootC", ca=True),
     }
     cas["interA"] = tp.mint(cn="vmc C15 intermediate", key_name="inter", issuer=cas["rootA"], issuer_key="rootA", ca=True)
     cas["interExpired"] = tp.mint(cn="vmc C15 expired intermediate", key_name="inter", issuer=cas["rootA"], issuer_key="rootA", ca=True, days=(-60, -30))
     cas["interNotCa"] = tp.mint(cn="vmc C15 leaf posing as intermediate", key_name="inter", issuer=cas["rootA"], issuer_key="rootA", ca=False, sans=["dns:inter.example.org"])
-    key_of = {"rootA": "rootA", "rootB": "rootB", "interA": "inter", "interExpired": "inter", "interNotCa": "inter"}
+    key_of = {"rootA": "rootA", "rootB": "rootB", "rootC": "rootC", "interA": "inter", "interExpired": "inter", "interNotCa": "inter"}
     keyfile = tp.write(d + "/leaf.key", tp.key_pem("leaf"))
     chains = {}
     for kind, (cn, sans, issuer, days, sent) in ALL_KINDS.items():
@@ -194,6 +197,12 @@ def setup():
     fa = tp.write(d + "/A.pem", tp.cert_pem(cas["rootA"]))
     fb = tp.write(d + "/B.pem", tp.cert_pem(cas["rootB"]))
     fab = tp.write(d + "/AB.pem", tp.cert_pem(cas["rootB"]) + tp.cert_pem(cas["rootA"]))
+    # the default bundle: whatever certifi.where() names.  net/tls.py calls `certifi.where()` on the module, so replacing
+    # the module attribute (in this process and its forked workers only) makes "default trust" a test root of our own.
+    import certifi
+
+    bundle = tp.write(d + "/default-bundle.pem", tp.cert_pem(cas["rootC"]))
+    certifi.where = lambda: bundle
     da = tp.hashed_dir(d + "/dirA", [cas["rootA"]])
     db = tp.hashed_dir(d + "/dirB", [cas["rootB"]])
     client = tp.mint(cn="vmc C15 client", key_name="leaf", issuer=cas["rootB"], issuer_key="rootB", eku=())
